@@ -33,7 +33,7 @@ CLAIMS = {
              "carried by the axis, no read of an undefined attribute. Advertised buffer sizes cover the views of the "
              "transposes (shape-list agreement shared with C01/C03) and Grid allocates all buffers with that size. The "
              "arithmetic fact 'lengths differ by at most one' is decided only through the recognised form.",
-        technique="symbolic normalisation of the split formula (sympy) + structural table rules + axis/dimension sort inference + undefined-attribute lint",
+        technique="symbolic reading of Layout.__init__ into sympy expressions compared in an n = q*p + r normal form + axis/dimension sort inference + undefined-attribute and derived-state lints",
         design="5/C02"),
     "C03": dict(
         text="Same field-location flow for LayoutSwapper.transpose (same-group, scatter, gather, multi-step; with and "
@@ -43,7 +43,7 @@ CLAIMS = {
              "(uniform padded counts, unpack with the sender's true block shape, placement by the source partition, "
              "Allgather not Gather), scatter slice, buffer sizing, permutation typing. The communicator-matching "
              "heuristic of __init__ and element-level placement are not decided.",
-        technique="abstract interpretation over buffer/layout/manager names + index-ownership typing + shape-list agreement (AST)",
+        technique="abstract interpretation over buffer/layout/manager names + forward substitution of gather/scatter arms into symbolic segment/shape values + index-ownership typing",
         design="5/C03, 4.3"),
     "C04": dict(
         text="Exhaustive typestate enumeration of a model extracted from the AST of Grid's methods on every run: all "
@@ -81,7 +81,7 @@ CLAIMS = {
              "equality and fed with each other's factors; periodic solves followed by the coefficient wrap; in 2-D each sweep uses the "
              "tools of its own dimension and both wraps cover the full extent of the other dimension, in the right order. The defining "
              "identity S(x_i)=u_i, polynomial reproduction and conditioning are numerical and are not decided.",
-        technique="structural pairing/ordering rules over the AST (canonicalised statement matching)",
+        technique="region typestate analysis of the 2-D interpolant (abstract buffers with labelled axes and symbolic cut points) + structural pairing/ordering rules + symbolic band-storage comparison",
         design="5/C08"),
     "C09": dict(
         text="Narrow mechanism claim: weights = transposed solve, with the interpolation factorisation, of the stored basis integrals "
@@ -89,7 +89,7 @@ CLAIMS = {
              "mutated; uniform-cubic interior integrals are dx and the auxiliary construction of the boundary integrals is translation "
              "invariant (symbolic). Correctness of _build_integrals for non-uniform periodic spaces and 1-2 cell uniform cubic spaces "
              "(the defects quoted in the property) is numerical and is NOT claimed.",
-        technique="structural rules + alias/mutation lint + symbolic translation-invariance check (sympy)",
+        technique="rules on syntactically specialised methods (by periodicity/family) + alias/mutation and memo-key lints + symbolic translation-invariance and bound comparison (sympy)",
         design="5/C09"),
     "C10": dict(
         text="Element-wise model of FluxSurfaceAdvection._getLagrangePts compared with the stated geometry (b_z, theta shift per "
@@ -106,7 +106,7 @@ CLAIMS = {
              "pairing of shift/coefficient/angle column and target row in the scatter-add, single scaling by b_z(r_i)/dz, sibling "
              "agreement of b_z and pitch with the flux-surface advection, no mutation of the precomputed tables, and index-space "
              "typing of the per-radius tables and of the grid-level caller. Convergence order is not decided.",
-        technique="structural formula rules + element-wise normal forms (sympy) + alias/mutation lint + index-space typing",
+        technique="def-use flow model of the gradient methods compared as sympy normal forms + element-wise normal forms + alias/mutation and cache-key lints + index-space typing",
         design="5/C13"),
     "C11": dict(
         text="Formula conformance by symbolic forward substitution: per boundary mode the kernel's assignment equals "
@@ -157,7 +157,7 @@ CLAIMS = {
              "weights, r Jacobian, dq dz (and v^2/2) and the four integrands as normal forms agreeing across the sibling classes; "
              "rows/ops/arrays/column order of DiagnosticCollector with sqrt only after reduction; neutral elements, ownership latch and "
              "global-to-local index conversion of Grid.getMin/getMax. The slot<->step relation and analytic volume factors are not decided.",
-        technique="index-space/window typing + formula normal forms (sympy) + producer/consumer table agreement",
+        technique="abstract interpretation of the weight constructors over region-wise vectors/windows/outer products + symbolic integrands + producer/consumer table agreement + purity lints",
         design="5/C17"),
     "C18": dict(
         text="Writer/reader agreement of the checkpoint format (dataset path, Layout attribute, hyperslab by the layout's starts/ends on "
@@ -166,7 +166,7 @@ CLAIMS = {
              "defaults applied after the file, dependency-ordered deferral), zero-divisor dataflow and restart book-keeping of the driver. "
              "Bit-exact HDF5 round trip and equality of split and unsplit runs are not decided; collective matching of the HDF5 calls "
              "is C06.",
-        technique="producer/consumer agreement rules + setter write-set commutation + abstract reaching-definition lint (zero divisor)",
+        technique="abstract file-name templates with format specs + classification of selection/request/printer expressions + modular normal form of save conditions + setter write-set commutation + reaching-definition lint",
         design="5/C18"),
     "C19": dict(
         text="Compile-fail witness: the repository's own compiler front end (pyccel -t; thorough: the documented make for Fortran and "
@@ -175,14 +175,14 @@ CLAIMS = {
              "arities; each variant body is AST-identical to the reference after normalisation or is proved against the same "
              "specification formula as the reference (engine F, helpers inlined); no kernel index relies on negative wrap-around. "
              "Numerical equality of compiled and interpreted results is inherently dynamic and is not decided.",
-        technique="compiler front end as type checker + normalised-AST/variant equivalence + symbolic specification conformance + index lint",
+        technique="compiler front end as type checker + canonical-form/variant equivalence ladder + symbolic specification conformance + index analysis for Python/compiled divergences",
         design="5/C19"),
     "C20": dict(
         text="Narrow structural claim: per process-grid direction the dimensions under the bounding min() equal the dimensions the "
              "standard layouts distribute along it; set-up call sites; the failure test after the divisor search is the negated loop "
              "bound; the second extent is the exact quotient by a divisor; candidates are accepted only within both bounds. "
              "Termination, optimality and exactness of the error condition over the whole input space are not decided.",
-        technique="producer/consumer set agreement + loop-exit guard rule over the AST",
+        technique="producer/consumer set agreement + divisor-scan recogniser on a local normal form + path-condition collection + state-preserving-path (non-termination) and memoised-result lints",
         design="5/C20"),
     "C06": dict(
         text="Static SPMD collective matching: every collective call site (35 today) and every call chain to it is "
@@ -199,6 +199,22 @@ CLAIMS = {
 NOT_YET = "no sound static rule built for this property yet in this framework (fail-closed: not claimed)"
 
 NA = {}
+
+# reworks of the third round (DESIGN.md section 5)
+ROUND3 = {'C01': 'all G-rules are three-valued and work on resolved expressions (the block-size variable is found by its role, temporaries are written out before the symbolic product comparison, arguments are bound by parameter name); new G1-unpacker-offset (received block r sits at r x padded block length in the receive buffer), G1 buffer-size independence diagnosis, G2-no-shared-mutation on everything a Layout hands out, G3-axis-index-space (axis[1] indexes source tables only, axis[2] destination tables only), D1-distinct-buffers (no array parameter bound to another one). A private behaviour-preserving `normal_view` of each function (early return -> else, `x = f(x)` renamed) feeds the permutation engine.',
+          'C02': '`Layout.__init__` is read symbolically (`SplitModel`: entries are sympy expressions in n, p, k; zip/enumerate/range headers, divmod, np.diff, slices, padding forms) and compared in a normal form with n = q p + r: VIOLATED only for a clearly different value (floor-free polynomial difference, difference when p divides n, min/max remainder distribution), otherwise UNDECIDED; G4-layout-derived-state follows aliases and helpers; accessors C-sort rules accept the zip form.',
+          'C03': "gather and scatter arms are read by forward substitution into symbolic values (`SymArm`: buffer segments, shape/slice lists with overrides, pieces of np.split, views, transposes, the rank-loop index as a symbol) and compared with the specification (counts, communicator, trip count, chunk offset/extent, view with the sender's true shape, placement) independently of temporaries, helpers, slicing idiom, hoisting or arm order; recognised wrong forms include the own-block shortcut and explicit MPI counts with MPI.DOUBLE.", 'C04': 'allocation agreement three-valued (list and comprehension forms, `[x]*n` aliasing diagnosed); the typestate model understands conditional expressions, buffer comprehensions, whole-view reshapes and np.copyto, and turns a store of an unrecognised value or an uninterpretable method into UNDECIDED instead of a destroyed buffer.',
+          'C05': 'inherited and template methods are resolved through the class chain; `gridStep` delegating to `gridStepKeepGradient` is followed; the z-regime tiling of the parallel gradient (shared with C13) is part of this property; engine-derived verdicts are UNDECIDED when the engine found no tag.',
+          'C06': "B4 is a guard analysis of every store into the route map inside the loop of the unordered choice (HOLDS when each store is reached only under 'strictly shorter' or 'equally long and candidate < stored', both directions stored); the SPMD engine tracks the PRESENCE of a local (`buf is None`) apart from its content, does not let a rank-dependent early return taint values assigned later, requires a guard to be uniform only if its alternatives issue different flat collective sequences (calls expanded through callee summaries), and treats loops over literal tables as uniform.", 'C07': 'entry points are read through a syntactic `Specialiser` (own-method calls inlined, locals bound to attribute chains replaced, branches on given boolean facts taken, guard clauses as if/else); dispatch sites are recognised as statement, conditional expression or selected callable; E2-evaluation-point (a fold/clamp of the evaluation point before the kernel is VIOLATED); the uniform span search is decided by engine F on the returned pair; scratch arrays carry their allocated length.',
+          'C08': '2-D `compute_interpolant` is decided by a region typestate analysis: every array is an abstract buffer with axes labelled x1/x2, index ranges cut at symbolic points (0, p, n, n+p) ordered by a linear argument, block states stale/data/solved-x1/solved-x2/final/misplaced, transfer functions for slices, transposition, copies, row/column loops and the two 1-D solves, run on the four periodic/clamped combinations; band storage and column rules are compared symbolically; H1-collocation-accumulate, H5-work-dtype and a shared-factors rule (table keyed without a constructor parameter the value depends on) added.',
+          'C09': 'rules run on `get_quadrature_coefficients` / `_build_integrals` specialised by (cubic_uniform, periodic); the periodic fold is classified (bounds symbolic, copy vs view, order); Q3 rules state the repaired forms (integrals reduced at both ends; one formula for all unwrapped functions) and diagnose the pre-fix forms; Q3-integrals-not-memoised (a memo table keyed on a summary of the break points).',
+          'C10': "`_getLagrangePts` is flattened (with-blocks, static helpers, integer constants) before the element-wise model; each quantity is compared with the formula applied to the code's own upstream values (one wrong definition, one violation); stencil centring decided symbolically by parity; `round`, `astype(int)`, `.size` modelled; the table writer's loop variables are taken from the written cell.", 'C11': 'feet decided with the element-wise model (HOLDS for nodes - c dt, the pre-fold with `%`/np.mod into [vMin, vMax) diagnosed); the truth-table comparison knows the exit conditions of the shift loops, so a merged boundary loop is proved equal; interpolate-before-evaluate structural; G5-cache-key.',
+          'C12': 'formula comparison by layered case analysis with atom merging and unified shape symbols; mismatches are matched against named wrong variants (drift divided by the node radius, dt*B0, equilibrium at the foot, cells never written in this call); F1-convergence-reset, F1-sweep-range, E2-work-array-storage (the eight work arrays are distinct storage), E2-arity with local tuples unpacked; F1-iteration-bounded (known finding).',
+          'C13': 'rules work on a small flow model of the three methods (locals by def-use, loops as row/stencil frames, stores into the result and the angle table with their frames) compared as sympy normal forms: finite-difference system incl. forward/backward steps as functions of n, theta table in loop or vectorised form, tiling of [0, nz) for any number of row loops, one obligation per accumulation (row, weight, angle column, radius index, clearing), total scaling = b_z(i)/dz however it is folded.',
+          'C14': 'methods are read through flat views (helpers the reference tree does not have written back, class hierarchy and callable arguments followed) with local names expanded by reaching definitions; assembly indexing is semantic (list entry L lands on offset k or -k given the diags range); weak form decided at operator level over block coefficient vectors; F4-quadrature-order (2n-1 >= requested degree); solve and evaluation structural with named wrong forms.',
+          'C15': "transform pair resolved through imports (nested-loop, one-statement and reshaped-rows forms); coefficient lambdas compared symbolically with the electron branch taken from the test's polarity; m=0 operator per configuration over block coefficient vectors; F5-equilibrium-cancellation (the equilibrium must go through the same quadrature as f); spectral-state typestate of the driver follows local functions.", 'C16': 'hoisted kernel views are written back before extraction; E3-equilibrium-same-quadrature; E2-output-storage; feq/weights roles three-valued with local temporaries resolved.',
+          'C17': "the four diagnostic constructors are read by an abstract interpreter over region-wise vectors in global and local frames ('engine W': [start:end) windows, outer products, shape lists, reshape/.flat fills, helper functions and tuple returns), one run per axis order; integrands symbolic with f = a + ib; collector rules structural (rows, class/layout/argument of each row, op and result array, sqrt after the sums, column order); extrema by path classification; E7-query-purity; G2-coordinates-read-only.", 'C18': "file names are abstract templates (literal text plus fields with format specs; str.format, f-strings, %-formatting, join, zfill) compared between writer, loader and restart, zero padding stated with its width assumption; the latest-checkpoint expression is classified (largest name vs mtime/min/unsorted); explicit-time detection classified (presence test vs truth value); `__str__` classified (source of attributes, filters, entry template, frame); save conditions in a modular normal form 'v + off = a (mod M)' shifted by the position of the increment, a run-local counter diagnosed; with-blocks spliced and local functions written back on a work copy.", 'C19': 'K1 is an index analysis (elements of int[:] arguments are array data; `%` or a while-wrap HOLDS; upper-end-only corrections, never-reduced differences, variable negative offsets VIOLATED); variant bodies decided through a ladder (AST-identical, identical in a canonical form that undoes hoisting/early returns/accumulators/loop forms, engine F against the specification, same statement skeleton with expressions compared pairwise, else UNDECIDED); V2-export-types; V5 also on the reference kernels; the build witness is VIOLATED only on a pyccel source diagnosis.',
+          'C20': 'rules run on a local normal form (tuple assignments split, constant locals written back, integer comparisons canonicalised) independent of local names: bounds extracted from the call however written, generic divisor-scan recogniser judged against the specification bound min(mpi_size, max_proc1), path conditions collected at the acceptance, N3 with constant tests filtered and the monotonicity discharge, N4 first so that its verdict survives an unrecognised search.'}
 
 # rules added after the second round of independently written breaking changes (DESIGN.md section 5)
 ADDED = {'C01': 'G2-no-shared-mutation: the transposes only read the cached route map/layout tables (no `.pop()`, store or in-place update through an alias).',
@@ -232,7 +248,7 @@ def main():
                 "evidence_file": f"/verif/evidence/{pid}.json",
                 "replay_cmd_template": f"/venv/bin/python -m pgverif check {pid} --tier quick  # replay file {{path}} names the obligation",
                 "engine": "pgverif",
-                "level_claimed": {"category": "other", "text": c["text"] + (" Also decided: " + ADDED[pid] if pid in ADDED else ""),
+                "level_claimed": {"category": "other", "text": c["text"] + (" Also decided: " + ADDED[pid] if pid in ADDED else "") + (" Round 3: " + ROUND3[pid] if pid in ROUND3 else ""),
                                   "design_ref": c["design"]},
                 "level_note": TRUST + " " + c.get("note", ""),
                 "technique": c["technique"],
